@@ -23,6 +23,11 @@ pub fn scratch_root() -> PathBuf {
     p
 }
 
+/// runs that hung or panicked are abandoned with their threads parked; after this many the process stops exploring
+/// (every one of them is a violation already) instead of exhausting memory
+pub static ABANDONED: AtomicUsize = AtomicUsize::new(0);
+pub const MAX_ABANDONED: usize = 40;
+
 fn arg<'a>(args: &'a [String], name: &str) -> Option<&'a str> {
     args.iter().position(|a| a == name).and_then(|i| args.get(i + 1)).map(|s| s.as_str())
 }
@@ -76,7 +81,7 @@ fn cmd_sched(args: &[String]) -> i32 {
             let mut runs = 0usize;
             loop {
                 let i = next.fetch_add(1, Ordering::SeqCst);
-                if i >= scenarios.len() {
+                if i >= scenarios.len() || ABANDONED.load(Ordering::SeqCst) > MAX_ABANDONED {
                     break;
                 }
                 let sv = &scenarios[i];
@@ -92,6 +97,11 @@ fn cmd_sched(args: &[String]) -> i32 {
                     let out = match policy.as_str() {
                         "random" => sched::run_controlled(cfg, sc.n, sched::Policy::Random(&[], seed ^ hash_str(&format!("{i}-{count}")))),
                         "free" => sched::run_free(cfg, sc.n, Some(seed ^ hash_str(&format!("{i}-{count}"))), false),
+                        "probe" => {
+                            let h = seed ^ hash_str(&format!("{i}-{count}"));
+                            sched::run_controlled(cfg, sc.n, sched::Policy::Probe(h, (h >> 20) as usize % 14))
+                        }
+                        "ungated" => sched::run_ungated(cfg, sc.n),
                         "guided" => {
                             // wishes: [action, kind, spec id, first]; ids are translated to the names txtpp prints
                             let wishes: Vec<(String, String, String, bool)> = sv["wishes"].as_array().map(|a| a.iter().map(|w| {
@@ -156,6 +166,9 @@ fn cmd_sched(args: &[String]) -> i32 {
                     }
                     if !abandoned {
                         let _ = std::fs::remove_dir_all(&dir);
+                    } else if ABANDONED.fetch_add(1, Ordering::SeqCst) >= MAX_ABANDONED {
+                        *local.entry("stopped_after_too_many_hangs".into()).or_insert(0) += 1;
+                        break;
                     }
                     if policy == "dfs" {
                         match sched::next_prefix(&out.choices) {
